@@ -467,6 +467,10 @@ func (e *Engine) tryStub(name string, fn *ssa.Function, args []Value, g *Term, p
 		}
 		return nil, false
 	}
+	if e.noops[name] {
+		e.StubsUsed[name+" (declared no-op)"]++
+		return zeroResult(sig), true
+	}
 	// package-prefix no-ops
 	pp := pkgPathOfFn(name)
 	if isNoopPkg(pp) {
@@ -474,6 +478,9 @@ func (e *Engine) tryStub(name string, fn *ssa.Function, args []Value, g *Term, p
 		switch name {
 		case "github.com/obolnetwork/charon/app/log.WithCtx", "github.com/obolnetwork/charon/app/log.WithTopic", "github.com/obolnetwork/charon/app/log.CopyFields", "github.com/obolnetwork/charon/app/log.WithLogger":
 			return args[0], true
+		case "github.com/obolnetwork/charon/app/tracer.Start":
+			// returns the context it was given and a nil span (span methods are no-ops)
+			return TupleV{[]Value{args[0], IfaceV{}}}, true
 		case "github.com/obolnetwork/charon/app/featureset.Enabled":
 			return e.featureEnabled(args[0]), true
 		}
@@ -708,6 +715,50 @@ func (e *Engine) tryStub(name string, fn *ssa.Function, args []Value, g *Term, p
 		e.StubsUsed[name+" (adjacent-exchange sort)"]++
 		e.sortStub(name, args, g, pos)
 		return nil, true
+	case "github.com/obolnetwork/charon/core.StartDutyTrace":
+		// tracing: returns the context it was given and a nil span
+		e.StubsUsed[name]++
+		return TupleV{[]Value{args[0], IfaceV{}}}, true
+	case "(github.com/obolnetwork/charon/core.PubKey).String":
+		// logging-friendly abbreviation; for an opaque key a placeholder (never used for identity)
+		if sv, ok := args[0].(StringV); ok && sv.hasAtom() {
+			e.StubsUsed[name+" (placeholder for opaque keys)"]++
+			return Str("<opaque pubkey>"), true
+		}
+		return nil, false
+	case "github.com/obolnetwork/charon/core.PubKeyFrom48Bytes", "github.com/obolnetwork/charon/core.PubKeyFromBytes":
+		// "0x" + hex of the 48 bytes: injective; modelled as an opaque string identified by the bytes (only when the
+		// bytes are symbolic: concrete bytes are formatted for real by following the code)
+		var elems []Value
+		switch x := args[0].(type) {
+		case ArrayV:
+			elems = x.e
+		case SliceV:
+			el, ok := e.sliceElems(x)
+			if !ok || len(el) != 48 {
+				return nil, false
+			}
+			elems = el
+		default:
+			return nil, false
+		}
+		allConst := true
+		for _, el := range elems {
+			if t, ok := el.(*Term); !ok || !t.IsConst() {
+				allConst = false
+			}
+		}
+		if !e.opaquePubKeys && allConst {
+			return nil, false
+		}
+		e.opaquePubKeys = true
+		e.StubsUsed[name+" (opaque injective string of the 48 bytes)"]++
+		sv := e.atomString("pubkey48", elems)
+		sv.alts[0].alen = BV(64, 98)
+		if name == "github.com/obolnetwork/charon/core.PubKeyFromBytes" {
+			return TupleV{[]Value{sv, IfaceV{}}}, true
+		}
+		return sv, true
 	case "github.com/obolnetwork/charon/core/consensus/qbft.hashProto":
 		// deterministic marshalling + SSZ merkleization = ideal injective hash of the message's full field tuple
 		e.StubsUsed[name+" (ideal injective hash of all fields)"]++
